@@ -115,6 +115,35 @@ pub fn image_check(cfg: &TreeCfg, dir: &Path) -> String {
         Ok(a) => a,
         Err(e) => return format!("ERR {e}"),
     };
+    // C20: after a recovery the directory holds nothing but what the recovered version names
+    let mut leftover: Vec<String> = vec![];
+    if let Ok(mut d) = DriverLite::open(cfg, dir) {
+        let t = d.tree.take().unwrap();
+        let inner = match &t {
+            lsm_tree::AnyTree::Standard(t) => t.clone(),
+            lsm_tree::AnyTree::Blob(b) => b.index.clone(),
+        };
+        let hist = lsm_tree::verif_hooks::history(&inner);
+        if let Some(cur) = hist.last() {
+            let tables: std::collections::BTreeSet<String> = cur.version.levels.iter().flatten().flatten().map(|t| t.id.to_string()).collect();
+            let blobs: std::collections::BTreeSet<String> = cur.version.blob_files.iter().map(|b| b.id.to_string()).collect();
+            for f in crate::oracles::list_dir(&dir.join("tables")) {
+                if !tables.contains(&f) {
+                    leftover.push(format!("tables/{f}"));
+                }
+            }
+            for f in crate::oracles::list_dir(&dir.join("blobs")) {
+                if !blobs.contains(&f) {
+                    leftover.push(format!("blobs/{f}"));
+                }
+            }
+            for f in crate::oracles::list_dir(dir) {
+                if f.len() > 1 && f.starts_with('v') && f[1..].chars().all(|c| c.is_ascii_digit()) && f != format!("v{}", cur.version.id) {
+                    leftover.push(f);
+                }
+            }
+        }
+    }
     // the recovered tree must be usable without colliding with leftovers
     let cont = (|| -> Result<(), String> {
         let mut d = DriverLite::open(cfg, dir)?;
@@ -136,7 +165,7 @@ pub fn image_check(cfg: &TreeCfg, dir: &Path) -> String {
     if let Err(e) = cont {
         return format!("CONT {e}");
     }
-    format!("ANS {}", serde_json::to_string(&ans).unwrap())
+    format!("ANS {}", serde_json::to_string(&serde_json::json!({"ans": ans, "leftover": leftover})).unwrap())
 }
 
 /// Minimal opener (no model): fresh cache, fresh descriptor table, fresh counters.
